@@ -210,11 +210,15 @@ class MinMaxAggregator:
         )
         ret.append(Rule(LOC, aux_head, list(chain(elem.condition, lits_with_vars))))
 
-        prev_agg = NEXT
-        next_agg = PREV
+        # variables for two neighbours of the domain that the variables of the group do not use
+        unique_vars = UniqueVariables(Function(LOC, "", rest_vars, False))
+        var_prev = unique_vars.make_unique(PREV)
+        var_next = unique_vars.make_unique(NEXT)
+        prev_agg = var_next
+        next_agg = var_prev
         if agg.atom.function == AggregateFunction.Max:
-            prev_agg = PREV
-            next_agg = NEXT
+            prev_agg = var_prev
+            next_agg = var_next
 
         head = Literal(
             LOC,
@@ -234,7 +238,7 @@ class MinMaxAggregator:
             Literal(
                 LOC,
                 Sign.NoSign,
-                SymbolicAtom(Function(LOC, next_pred.name, [PREV, NEXT], False)),
+                SymbolicAtom(Function(LOC, next_pred.name, [var_prev, var_next], False)),
             )
         )
         ret.append(Rule(LOC, head, body))
@@ -269,7 +273,7 @@ class MinMaxAggregator:
                     Literal(
                         LOC,
                         Sign.NoSign,
-                        SymbolicAtom(Function(LOC, next_pred.name, [PREV, NEXT], False)),
+                        SymbolicAtom(Function(LOC, next_pred.name, [var_prev, var_next], False)),
                     )
                 ],
             )
@@ -480,8 +484,11 @@ class MinMaxAggregator:
         oldmax: AST,
         rest_cond: list[AST],
         function: Callable[[AST, list[AST], list[AST]], AST],
+        neighbours: tuple[AST, AST] = (PREV, NEXT),
     ) -> list[AST]:
         assert minmaxpred is not None
+        # neighbours: variables for two neighbours of the domain that the replaced statement does not use
+        var_prev, var_next = neighbours
 
         if minimize:
 
@@ -496,11 +503,11 @@ class MinMaxAggregator:
         aggtype, translation, idx = minmaxpred
 
         if aggtype == AggregateFunction.Max:
-            prev = PREV
-            next_ = NEXT
+            prev = var_prev
+            next_ = var_next
         else:
-            prev = NEXT
-            next_ = PREV
+            prev = var_next
+            next_ = var_prev
 
         # (__NEXT-__PREV), __chain__max_0_0_x(__PREV,__NEXT) : __chain__max_0_0_x(P,__NEXT),
         #  __next_0__dom___max_0_0_11(__PREV,__NEXT)
@@ -509,7 +516,7 @@ class MinMaxAggregator:
         chain_name = self.domain_predicates.chain_pred(
             AnnotatedPredicate(Predicate(newpred.name, 1), (0,)), 0, aggtype == AggregateFunction.Max
         ).name
-        new_terms = [Function(LOC, chain_name, [PREV, NEXT], False)] + list(terms)
+        new_terms = [Function(LOC, chain_name, [var_prev, var_next], False)] + list(terms)
 
         newargs = translation.translate_parameters(oldmax.atom.symbol.arguments)
         newargs = [next_ if i == idx else x for i, x in enumerate(newargs)]
@@ -529,7 +536,7 @@ class MinMaxAggregator:
                 Function(
                     LOC,
                     self.domain_predicates.next_anon_predicate(anon, 0).name,
-                    [PREV, NEXT],
+                    [var_prev, var_next],
                     False,
                 )
             ),
@@ -562,6 +569,12 @@ class MinMaxAggregator:
         # #inf and #sup are ignored by minimized and therefore not included
         # (also would require more complex variable bindings)
         return ret
+
+    @staticmethod
+    def _neighbours(stm: AST) -> tuple[AST, AST]:
+        """two variables for neighbours in a domain that the statement does not use"""
+        unique_vars = UniqueVariables(stm)
+        return (unique_vars.make_unique(PREV), unique_vars.make_unique(NEXT))
 
     def _replace_results_in_minimize(self, stm: AST, minimizes: dict[tuple[AST, ...], list[AST]]) -> list[AST]:
         """
@@ -650,6 +663,7 @@ class MinMaxAggregator:
             oldmax,
             rest_cond,
             lambda weight, terms, conditions: Minimize(LOC, weight, stm.priority, terms, conditions),
+            self._neighbours(stm),
         )
         return replacement
 
@@ -688,7 +702,9 @@ class MinMaxAggregator:
                 rest_cond.append(cond)
         return oldmax, minmaxpred, rest_cond
 
-    def _replace_results_in_sum_agg_elem(self, elem: AST, rest_elems: list[AST]) -> list[AST]:
+    def _replace_results_in_sum_agg_elem(
+        self, elem: AST, rest_elems: list[AST], neighbours: tuple[AST, AST] = (PREV, NEXT)
+    ) -> list[AST]:
         """
         replaces min/max predicates in sum aggregate elements by returning a
         new list of elements
@@ -743,10 +759,11 @@ class MinMaxAggregator:
             old_max,
             rest_cond,
             lambda weight, terms, conditions: BodyAggregateElement([weight] + terms, conditions),
+            neighbours,
         )
         return replacement
 
-    def _replace_results_in_sum_agg(self, agg: AST) -> AST:
+    def _replace_results_in_sum_agg(self, agg: AST, neighbours: tuple[AST, AST] = (PREV, NEXT)) -> AST:
         """
         replaces min/max predicates in sum aggregates by returning an aggregate
         (this might the a new one or the old one)
@@ -754,7 +771,9 @@ class MinMaxAggregator:
         atom = agg.atom
         elements = []
         for elem in atom.elements:
-            elements.extend(self._replace_results_in_sum_agg_elem(elem, [x for x in atom.elements if x != elem]))
+            elements.extend(
+                self._replace_results_in_sum_agg_elem(elem, [x for x in atom.elements if x != elem], neighbours)
+            )
         return Literal(LOC, agg.sign, BodyAggregate(LOC, atom.left_guard, atom.function, elements, atom.right_guard))
 
     # NOTE. this might actually not be advantageous as it produces a larger set of potential sums
@@ -772,7 +791,7 @@ class MinMaxAggregator:
                 and b.atom.ast_type == ASTType.BodyAggregate
                 and b.atom.function in (AggregateFunction.Sum, AggregateFunction.SumPlus)
             ):
-                body.append(self._replace_results_in_sum_agg(b))
+                body.append(self._replace_results_in_sum_agg(b, self._neighbours(stm)))
             else:
                 body.append(b)
         return [Rule(LOC, stm.head, body)]
